@@ -271,6 +271,14 @@ func (s *clientSocket) finishUpgradeTo(t ClientTransport, c *transport.Callbacks
 
 	c.Set(s.onPacket, s.onTransportClose)
 
+	// Before the server is told to switch, the old transport is paused: what the server has sent over it
+	// (a poll request in flight) is delivered first, so that nothing of it can arrive in between - or after -
+	// what the server sends over the new transport. Not with the lock held: delivering may need it (a PONG).
+	s.transportMu.RLock()
+	current := s.transport
+	s.transportMu.RUnlock()
+	current.Discard()
+
 	s.transportMu.Lock()
 	defer s.transportMu.Unlock()
 
